@@ -389,9 +389,14 @@ class FileGen:
             return "%s %s, %s" % (rng.choice(REG_SRC), self.mode_operand(), self.reg())
         if k < 0.82:
             return "%s %s, %s" % (rng.choice(REG_DST), self.reg(), self.mode_operand(dst=True))
-        if k < 0.86:
+        if k < 0.84:
             e = self.expr("byte")
             return "%s %s" % (rng.choice(["emt", "trap"]), e.text)
+        if k < 0.86:
+            # branch relative to '.', distance possibly a (late) constant: 0 = onto itself, 2 = next word
+            evens = [c for c in self.visible.values() if c.value in (0, 2) and not c.positional]
+            d = rng.choice(evens).name if evens and rng.random() < 0.6 else rng.choice(["0", "2"])
+            return "%s . + %s" % (rng.choice(BRANCHES), d)
         if k < 0.88:
             e = self.expr("small", allow_positional=False)
             return "mark %s" % e.text
@@ -501,8 +506,14 @@ class FileGen:
             n = rng.randint(1, 4)
             items = []
             for _ in range(n):
-                if self.all_labels() and rng.random() < 0.3:
+                k2 = rng.random()
+                if self.all_labels() and k2 < 0.3:
                     items.append(rng.choice(self.all_labels()))
+                elif k2 < 0.38:
+                    # '.' = address of this statement, possibly combined with a (late) constant
+                    e = self.expr("small", allow_positional=False)
+                    items.append(rng.choice([".", ". + %s" % (e.text if e.atomic else angle(e.text)),
+                                             "<. - %s>" % (e.text if e.atomic else "(%s)" % e.text) if "<" not in e.text and ">" not in e.text else "."]))
                 else:
                     items.append(self.expr("word").text)
             kw = rng.choice([".word", ".word", ".dw"]) if rng.random() < 0.8 else None
